@@ -203,7 +203,7 @@ func compare(t *exprlib.Term, x []float64, typ string, obs float64) (cmpOutcome,
 	env := exprlib.NewEnv(x, u, +1)
 	r := env.Eval(t)
 	info := cmpInfo{Expected: r.V, Lo: r.V, Hi: r.V, Observed: obs, Ties: len(env.Ties)}
-	if !r.Finite() {
+	if !r.Finite() || env.Overflow {
 		return cmpSkipUndefined, info
 	}
 	hi, lo := 1e290, 1e-290
@@ -227,7 +227,7 @@ func compare(t *exprlib.Term, x []float64, typ string, obs float64) (cmpOutcome,
 		for _, side := range []int{0, -1} {
 			env2 := exprlib.NewEnv(x, u, side)
 			r2 := env2.Eval(t)
-			if !r2.Finite() {
+			if !r2.Finite() || env2.Overflow {
 				return cmpSkipUndefined, info
 			}
 			if len(env2.Ties) > 1 {
@@ -247,21 +247,21 @@ func compare(t *exprlib.Term, x []float64, typ string, obs float64) (cmpOutcome,
 // ---------------------------------------------------------------- statistics
 
 type stats struct {
-	mu          sync.Mutex
-	Cases       int
-	Executions  int
-	Comparisons int
-	Mismatches  int
-	SkipUndef   int
-	SkipRange   int
-	SkipTies    int
-	ZeroSlots   int // exact-zero slot checks performed
+	mu           sync.Mutex
+	Cases        int
+	Executions   int
+	Comparisons  int
+	Mismatches   int
+	SkipUndef    int
+	SkipRange    int
+	SkipTies     int
+	ZeroSlots    int // exact-zero slot checks performed
 	SkipSingular int // executions at a singular point of a local derivative (value only)
-	Deviations  int
-	Ops         map[string]int
-	Insts       map[string]int
-	Branch      map[string]int
-	perSig      map[string]int
+	Deviations   int
+	Ops          map[string]int
+	Insts        map[string]int
+	Branch       map[string]int
+	perSig       map[string]int
 }
 
 func newStats() *stats {
@@ -494,7 +494,7 @@ func (ck *checker) checkCase(p *pcase) {
 			regular := true
 			for _, g := range p.grd {
 				env := exprlib.NewEnv(res.X, unitRoundoff(in.Type), +1)
-				if r := env.Eval(g); !r.Finite() {
+				if r := env.Eval(g); !r.Finite() || env.Overflow {
 					regular = false
 					break
 				}
